@@ -169,6 +169,8 @@ fn confirm_isolated(engine: &dyn Engine, seed: u64, idx: u64, tier: &str, recent
 }
 
 pub struct ChildOut {
+    /// (case index, digest of everything observable in the case), sorted by index
+    pub digests: Vec<(u64, u64)>,
     pub acc: Acc,
     pub cases_run: u64,
     pub wall_s: f64,
@@ -181,6 +183,7 @@ pub fn run_threads(engine: &dyn Engine, seed: u64, tier: &str, first: u64, count
     let end = first + count;
     let stop = AtomicBool::new(false);
     let merged = Mutex::new(Acc::default());
+    let all_digests: Mutex<Vec<(u64, u64)>> = Mutex::new(Vec::new());
     let nondet = Mutex::new(Vec::new());
     let ran = AtomicU64::new(0);
     let jfile: Option<Arc<File>> = journal.map(|p| Arc::new(OpenOptions::new().create(true).write(true).truncate(true).open(p).expect("journal")));
@@ -195,6 +198,7 @@ pub fn run_threads(engine: &dyn Engine, seed: u64, tier: &str, first: u64, count
             let next = &next;
             let stop = &stop;
             let merged = &merged;
+            let all_digests = &all_digests;
             let nondet = &nondet;
             let ran = &ran;
             let jfile = jfile.clone();
@@ -205,6 +209,7 @@ pub fn run_threads(engine: &dyn Engine, seed: u64, tier: &str, first: u64, count
                     crate::hook::install_panic_hook();
                     let mut acc = Acc::default();
                     let mut recent: Vec<u64> = Vec::new();
+                    let mut digests: Vec<(u64, u64)> = Vec::new();
                     loop {
                         if stop.load(Ordering::Relaxed) {
                             break;
@@ -219,6 +224,7 @@ pub fn run_threads(engine: &dyn Engine, seed: u64, tier: &str, first: u64, count
                         let nv = acc.violations.len();
                         let d = engine.run_case(seed, idx, tier, &mut acc);
                         ran.fetch_add(1, Ordering::Relaxed);
+                        digests.push((idx, d));
                         if acc.violations.len() > nv && engine.confirm_on_fresh_thread() {
                             // The worker thread has run many cases before this one. Make the report
                             // self-contained: it must reproduce on a brand-new thread, alone or after a
@@ -250,6 +256,7 @@ pub fn run_threads(engine: &dyn Engine, seed: u64, tier: &str, first: u64, count
                         let _ = f.write_all_at(&u64::MAX.to_le_bytes(), 8 * t as u64);
                     }
                     merged.lock().unwrap().merge(acc);
+                    all_digests.lock().unwrap().extend(digests);
                 })
                 .expect("spawn worker");
         }
@@ -257,7 +264,9 @@ pub fn run_threads(engine: &dyn Engine, seed: u64, tier: &str, first: u64, count
     let mut acc = merged.into_inner().unwrap();
     acc.trim_samples(6);
     acc.violations.sort_by_key(|v| v.case);
-    ChildOut { acc, cases_run: ran.load(Ordering::Relaxed), wall_s: t0.elapsed().as_secs_f64(), nondeterminism: nondet.into_inner().unwrap() }
+    let mut digests = all_digests.into_inner().unwrap();
+    digests.sort();
+    ChildOut { digests, acc, cases_run: ran.load(Ordering::Relaxed), wall_s: t0.elapsed().as_secs_f64(), nondeterminism: nondet.into_inner().unwrap() }
 }
 
 pub fn acc_to_json(out: &ChildOut) -> Value {
